@@ -213,7 +213,12 @@ fn main() {
       body_max: rng.urange(4, 14),
       multi_text_p: 0.1,
     };
-    let corpus = scoring::gen_corpus(rng, &cfg);
+    let mut corpus = scoring::gen_corpus(rng, &cfg);
+    if !cfg.dirty && rng.chance(0.3) {
+      // length-skewed family: long documents, a few very short ones at the end of each commit
+      scoring::add_length_skew(rng, &mut corpus, &cfg.vocab);
+      l.count("corpora_length_skewed", 1);
+    }
     let dir = scratch.join("i");
     let built = match vcore::ctx::catch(|| scoring::build(&dir, &corpus)) {
       Ok(Ok(b)) => b,
@@ -405,12 +410,23 @@ fn main() {
         let k = rng.urange(1, 50.min(hits.len()));
         let score_only_desc = sort_plan.len() == 1 && matches!(sort_plan[0], SK::Score(true));
         if score_only_desc || !uses_score {
+          let mut variants: Vec<Value> = Vec::new();
           let mut req2 = req.clone();
           req2["limit"] = json!(k);
           if score_only_desc {
-            // pruning vs. exhaustive is C09's property
-            req2["execution"] = json!("bm25");
+            // exhaustive first; the request's own (possibly pruned) execution as well: the top of
+            // the ranking must not depend on the strategy (C09 studies that in depth, here it is
+            // the same order/score statement applied to a limited request)
+            let mut ex = req2.clone();
+            ex["execution"] = json!("bm25");
+            variants.push(ex);
+            if req2.get("execution").and_then(|e| e.as_str()) != Some("bm25") {
+              variants.push(req2.clone());
+            }
+          } else {
+            variants.push(req2.clone());
           }
+          for req2 in variants {
           if let Ok(Ok(r2)) = vcore::ctx::catch(|| idx::search(&built.reader, req2.clone())) {
             l.eval();
             l.count("limit_prefix_checks", 1);
@@ -426,11 +442,12 @@ fn main() {
             };
             if let Some((kind, detail)) = bad {
               l.fail(
-                format!("limit-prefix:{kind}:{}", if score_only_desc { "score-sort" } else { "field-sort" }),
+                format!("limit-prefix:{kind}:{}:{}", if score_only_desc { "score-sort" } else { "field-sort" }, req2.get("execution").and_then(|e| e.as_str()).unwrap_or("default")),
                 format!("limit {k} does not return the first {k} hits of the full ordering"),
                 json!({"request": req2, "detail": detail}),
               );
             }
+          }
           }
         }
       }
